@@ -220,6 +220,9 @@ func (c *verifC04Case) cwChecks(victim int, db *channeldb.DB, st *channeldb.Open
 		case len(o.breaches) == 0 && o.coop != nil:
 			noBreach("dispatched-as-cooperative-close")
 			continue
+		case len(o.breaches) == 0 && o.panicked != "":
+			noBreach("watcher-panicked")
+			continue
 		case len(o.breaches) == 0 && o.dlpWait:
 			noBreach("treated-as-unknown-state-data-loss-wait")
 			continue
